@@ -72,6 +72,10 @@ CLAIMS = {
    text="Buffer.tla is model-checked by TLC (InBounds, NoUnwrittenExposed, FailChangesNothing, BookmarkLemma) over all operation sequences on a small buffer. At the real capacity (measured from the library) the transitions of the model's graph over the boundary argument set x {push, push_tag_len, skip(+fill), reset, MAC placeholder} are replayed on a REAL Buffer (shortest path + transition) and TraceBuffer.tla judges result, len()/free() and the exact run-length-encoded contents of data() after every step. Through the public API request sizes are swept across the 127/128, 255/256 and capacity boundaries at each nesting level on v1/v2c/v3 (plain/auth/DES/AES): TraceSession.tla requires that a refused request put nothing on the wire and really does not fit (size arithmetic of SNMP.tla), that every sent request decodes to exactly the call, and that the session still emits correct requests afterwards.",
    note="An out-of-bounds access without functional symptom (result, lengths, contents unchanged) is not observable by this technique (DESIGN.md 6). Quick tier replays ~1800 sampled transitions; thorough all ~450k.",
    ref="DESIGN.md 5 C17", technique="TLC model checking of Buffer.tla + one implementation test per transition on the real Buffer + TLC trace validation of a request-size sweep"),
+ "C18": dict(
+   text="Timeout.tla (explicit discrete time) is model-checked by TLC: ReturnsByDeadline, FinishedInTime, MatchInTimeDelivered over all 792 arrival schedules of <=4 non-matching datagrams at ticks 1..7 plus an optional matching reply; DEV_RearmTimeoutOnSkip reproduces the pinned sync client and TLC returns the counterexample. The schedules of the shape the property names (strays spaced closer than the timeout; reply in time, late, never) are replayed in real time (tick 125 ms, timeout 0.5 s) through the real sync and async SnmpSession.get() over v1/v2c/v3 against a timed agent; TraceTimeout.tla judges outcome and elapsed time against the model with 250 ms slack, and a failing case is reported only after failing three times in a row.",
+   note="Wall-clock measurement: a regression smaller than the slack (250 ms) is not detected. The replayed subset is 48 (thorough 150) of the 792 schedules.",
+   ref="DESIGN.md 5 C18", technique="TLC model checking of Timeout.tla (explicit time) + real-time schedule replay judged by TLC"),
  "C19": dict(
    text="TLC checks delay<=D, slot invariants and the k-window bound on Policer.tla for all phase offsets x gaps (several D); Apalache discharges the inductive invariant for symbolic D and unbounded times; the real RPSPolicer is driven through every transition of the exported graph (get_timeout, wait_sync, wait under a virtual clock) and through random call sequences, and every observed run is judged by TracePolicer.tla at property level.",
    note="Assumes sequential calls on a monotonic clock (the property's hypothesis) and that sleep() sleeps at least what is asked. Window bound for all k follows arithmetically from the inductive invariant.",
